@@ -188,7 +188,9 @@ func (x *c10Run) factory(name int, kind string, id int, p *c10Prog) app.Factory 
 		num := x.runs[name]
 		x.depth++
 		defer func() { x.depth-- }()
-		if x.depth > 64 {
+		if x.deep || x.depth > 64 {
+			// the nesting can only exceed the pool size if the container recurses without bound:
+			// cut it, and make every further factory call of this request return at once
 			x.deep = true
 			return nil, errors.New("harness: recursion cut")
 		}
